@@ -22,7 +22,7 @@ from itertools import zip_longest
 from typing import cast, Any, Optional, Union, NoReturn
 from urllib.parse import urlsplit
 from urllib.request import urlopen
-from urllib.error import URLError
+from http.client import HTTPException
 
 import elementpath.aliases as ta
 
@@ -1234,8 +1234,12 @@ def evaluate__unparsed_text(self: XPathFunction, context: ta.ContextType = None)
     href: Optional[str] = self.get_argument(context, cls=str)
     if href is None:
         return []
-    elif urlsplit(href).fragment:
-        raise self.error('FOUT1170')
+
+    try:
+        if urlsplit(href).fragment:
+            raise self.error('FOUT1170')
+    except ValueError as err:
+        raise self.error('FOUT1170', err) from None
 
     encoding: str
     if len(self) > 1:
@@ -1260,9 +1264,10 @@ def evaluate__unparsed_text(self: XPathFunction, context: ta.ContextType = None)
             with urlopen(uri) as rp:
                 stream_reader = codecs.getreader(encoding)(rp)
                 text = stream_reader.read()
-        except URLError as err:
+        except (OSError, HTTPException) as err:
+            # URLError, timeouts, connection errors and incomplete reads
             raise self.error('FOUT1170', err) from None
-        except ValueError as err:
+        except UnicodeError as err:
             if len(self) > 1:
                 raise self.error('FOUT1190', err) from None
 
@@ -1270,10 +1275,12 @@ def evaluate__unparsed_text(self: XPathFunction, context: ta.ContextType = None)
                 with urlopen(uri) as rp:
                     stream_reader = codecs.getreader('UTF-16')(rp)
                     text = stream_reader.read()
-            except URLError as err:
+            except (OSError, HTTPException) as err:
                 raise self.error('FOUT1170', err) from None
             except ValueError as err:
                 raise self.error('FOUT1190', err) from None
+        except ValueError as err:
+            raise self.error('FOUT1170', err) from None  # not a usable URL
 
         if context is not None:
             context.text_resources[uri] = text
@@ -1300,7 +1307,11 @@ def evaluate__unparsed_text_available(self: XPathFunction, context: ta.ContextTy
     href = self.get_argument(context, cls=str)
     if href is None:
         return False
-    elif urlsplit(href).fragment:
+
+    try:
+        if urlsplit(href).fragment:
+            return False
+    except ValueError:
         return False
 
     if len(self) > 1:
@@ -1324,11 +1335,13 @@ def evaluate__unparsed_text_available(self: XPathFunction, context: ta.ContextTy
             for line in stream_reader:
                 if any(not is_xml_codepoint(ord(s)) for s in line):
                     return False
-    except URLError:
+    except (OSError, HTTPException):
         return False
-    except ValueError:
+    except UnicodeError:
         if len(self) > 1:
             return False
+    except ValueError:
+        return False  # not a usable URL
     else:
         return True
 
@@ -1339,7 +1352,7 @@ def evaluate__unparsed_text_available(self: XPathFunction, context: ta.ContextTy
             for line in stream_reader:
                 if any(not is_xml_codepoint(ord(s)) for s in line):
                     return False
-    except (ValueError, URLError):
+    except (ValueError, OSError, HTTPException):
         return False
     else:
         return True
